@@ -521,7 +521,8 @@ class SpecRunner:
         c = self.cur
         self.checksig_calls += 1
         self.sigs_seen.append(sig)
-        if len(sig) > 0 and not is_strict_der(sig) and not (c.flags & DER_FLAGS):
+        # lax region: no DER flag, and a blob that is not strict DER but that Core's lax parser does read
+        if len(sig) > 0 and not (c.flags & DER_FLAGS) and not is_strict_der(sig) and parse_der_lax(sig[:-1]) is not None:
             self.lax_used = True
         ok = core_checksig(sig, pk, code, sv, c.tx, c.nin, c.amount)
         if ok:
@@ -1784,6 +1785,139 @@ def witness_depth_cases(rng, tier):
                 yield SpendCase(fl, tx, 0, spk, 7, "witdepth/%d/%s%s" % (n, script.hex()[:8], "/p2sh" if behind_p2sh else ""))
 
 
+def core_find_and_delete(script: bytes, pat: bytes) -> bytes:
+    """CScript::FindAndDelete, for SIGNING only (the spec has its own, extracted one): at each opcode boundary skip
+    every consecutive raw copy of pat, then copy one opcode; copy the rest verbatim when GetOp fails"""
+    if not pat:
+        return script
+    out = bytearray()
+    pc = 0
+    while True:
+        while script[pc:pc + len(pat)] == pat and len(script) - pc >= len(pat):
+            pc += len(pat)
+        ok, _op, _d, npc = get_op(script, pc)
+        if not ok:
+            out += script[pc:]
+            return bytes(out)
+        out += script[pc:npc]
+        pc = npc
+
+
+ONE_BYTE_JUNK = [bytes([v]) for v in list(range(1, 17)) + [0x81]]
+
+
+def junk_sig_batches(rng, tier):
+    """CHECKMULTISIG / CHECKSIG batches mixing VALID signatures with junk blobs whose minimal push is an opcode
+    (one byte 01..10 / 81) or whose plain push occurs raw in the script (01 xx, 2-byte, 75/76-byte blobs).
+    The valid signatures commit to Core's script code: only the PLAIN push of every blob of the batch is deleted,
+    OP_1..OP_16 / OP_1NEGATE stay.  Yields SpendCases (bare and P2SH) and the matching single-script EvalCases."""
+    n_rounds = 250 if tier == "quick" else 5000
+    flag_choices = [0, FL["DERSIG"], FL["NULLFAIL"], FL["STRICTENC"], FL["DERSIG"] | FL["NULLFAIL"], FL["STRICTENC"] | FL["NULLFAIL"],
+                    FL["P2SH"] | FL["DERSIG"], FL["P2SH"], FL["NULLDUMMY"] | FL["LOW_S"], FL["P2SH"] | FL["STRICTENC"] | FL["NULLDUMMY"]]
+    for rnd in range(n_rounds):
+        tx = rand_tx(rng)
+        nin = rng.randrange(len(tx.vin))
+        amount = rng.choice([0, 7, 10 ** 8])
+        single = rng.random() < 0.2
+        nkeys = 1 if single else rng.choice([1, 2, 2, 2, 3, 3, 4, 5, 16])
+        keys = [sec(i, "c" if rng.random() < 0.8 else "u") for i in range(nkeys)]
+        if single:
+            nsigs = 1
+        else:
+            nsigs = rng.randint(1, min(nkeys, 4))
+        m_in_script = nsigs if rng.random() < 0.9 else max(nsigs - 1, 0)
+        # OP_n opcodes that will occur in the script: the two counts and some `OP_n DROP` decoys
+        decoys = [rng.choice(list(range(1, 17)) + [0x81]) for _ in range(rng.randint(0, 2))]
+        present = [v for v in ([m_in_script, nkeys] if not single else []) if 1 <= v <= 16] + decoys
+
+        def junk():
+            r = rng.random()
+            if r < 0.60 and present:
+                return bytes([rng.choice(present)])          # its MINIMAL push is an opcode of the script
+            if r < 0.68:
+                return rng.choice(ONE_BYTE_JUNK)
+            if r < 0.78:
+                return bytes([rng.choice([1, 2, 0x51, 0x52, 0x81, 0x30]), rng.choice([1, 2, 0x75, 0x51])])
+            if r < 0.88:
+                return bytes([0x30]) + rand_bytes(rng, rng.choice([74, 75]))
+            if r < 0.93:
+                return b""
+            return rand_bytes(rng, rng.choice([3, 9, 71]))
+        # which signature slots: each slot is ("valid", key index) or ("junk", blob); valid ones keep key order
+        n_valid = rng.randint(0, nsigs) if rng.random() < 0.85 else nsigs
+        n_valid = max(n_valid, 1 if rng.random() < 0.8 and nsigs > 1 else 0)
+        kidx = sorted(rng.sample(range(nkeys), min(n_valid, nkeys)))
+        slots = [("valid", k) for k in kidx] + [("junk", junk()) for _ in range(nsigs - len(kidx))]
+        arrangement = rng.random()
+        if arrangement < 0.6:
+            slots.sort(key=lambda t: 0 if t[0] == "junk" else 1)       # junk below (checked last): the early-exit shape
+        elif arrangement < 0.8:
+            rng.shuffle(slots)
+            vs = iter(sorted(t[1] for t in slots if t[0] == "valid"))
+            slots = [t if t[0] == "junk" else ("valid", next(vs)) for t in slots]
+        junk_blobs = [t[1] for t in slots if t[0] == "junk"]
+        # script: decoys that the WRONG (minimal-push) deletion would remove, and raw copies that Core DOES remove
+        pre = bytearray()
+        for v in decoys:
+            pre += bytes([0x4F if v == 0x81 else 0x50 + v, 0x75])                             # OP_n DROP
+        for _ in range(rng.randint(0, 2)):
+            q = rng.random()
+            if q < 0.5 and junk_blobs:
+                pre += push_raw(rng.choice(junk_blobs)) + b"\x75"                             # plain push of a junk blob, DROP
+            elif q < 0.85:
+                pre += b"\x01" + bytes([rng.choice([1, 2, 5, 0x10, 0x81])]) + b"\x75"       # raw 01 xx
+            else:
+                pre += push_raw(b"\x99" + push_raw(rng.choice(junk_blobs or [b"\x02"]))) + b"\x75"   # pattern inside a push
+        if single:
+            body = push_raw(keys[0]) + b"\xac"
+        else:
+            body = multisig_script(m_in_script, keys)
+        tail = rng.choice([b"", b"\x91", b"\x91", b"\x91", b"\x69\x51"])
+        script = bytes(pre) + body + tail
+        if len(script) > 520 and rng.random() < 0.5:
+            continue
+        ht = rng.choice(HASHTYPES)
+        # Core's script code: every blob's plain push deleted (valid signatures do not occur in the script)
+        code = script
+        for t in slots[::-1]:
+            if t[0] == "junk":
+                code = core_find_and_delete(code, push_raw(t[1]))
+        blobs = []
+        for t in slots:
+            if t[0] == "junk":
+                blobs.append(t[1])
+            else:
+                variant = "valid" if rng.random() < 0.9 else rng.choice(["wrong_key", "high_s", "undefined_hashtype"])
+                blobs.append(make_sig(rng, _digest_f(tx, nin, amount, code, "B"), t[1], ht, variant))
+        dummy = rng.choice([b"", b"", b"", b"\x01"])
+        items = ([] if single else [dummy]) + blobs
+        # scriptSig pushes: junk one-byte blobs pushed minimally (OP_n) or plainly (01 xx)
+        ssig = b"".join(push_min(it) if rng.random() < 0.5 else push_raw(it) for it in items)
+        tag = "junkbatch/%s/%dof%d/%s" % ("cs" if single else "cms", nsigs, nkeys, ",".join("V" if t[0] == "valid" else t[1].hex()[:6] for t in slots))
+        fls = [rng.choice(flag_choices), flag_choices[rnd % len(flag_choices)], rand_flags(rng)]
+        for fl in fls:
+            t1 = SynTx(tx.version, [list(v) for v in tx.vin], tx.vout, tx.locktime)
+            t1.vin[nin][2] = ssig
+            yield SpendCase(fl, t1, nin, script, amount, tag)
+            yield EvalCase(fl, "B", script, items, t1, nin, amount, tag)
+            if len(script) <= 520:
+                t2 = SynTx(tx.version, [list(v) for v in tx.vin], tx.vout, tx.locktime)
+                t2.vin[nin][2] = b"".join(push_raw(it) for it in items) + push_raw(script)
+                yield SpendCase(fl | FL["P2SH"], t2, nin, b"\xa9\x14" + hash160(script) + b"\x87", amount, tag + "/p2sh")
+    # the coordinator's witness, spelled out: 2-of-2 NOT with blobs [02, valid sig by k2]
+    tx = SynTx(1, [[b"\x55" * 32, 0, b"", 0xFFFFFFFF, []]], [[1, b"\x51"]], 0)
+    k1, k2 = sec(0, "c"), sec(1, "c")
+    for junk_b in ONE_BYTE_JUNK:
+        script = multisig_script(2, [k1, k2]) + b"\x91"
+        code = core_find_and_delete(script, push_raw(junk_b))
+        sg = make_sig(rng, _digest_f(tx, 0, 0, code, "B"), 1, 1, "valid")
+        for fl in (FL["P2SH"] | FL["DERSIG"], 0, FL["NULLFAIL"], FL["STRICTENC"]):
+            t1 = SynTx(1, [list(tx.vin[0])], tx.vout, 0)
+            t1.vin[0][2] = b"\x00" + push_raw(junk_b) + push_raw(sg)
+            yield SpendCase(fl, t1, 0, script, 0, "junkbatch/witness/%s" % junk_b.hex())
+            yield EvalCase(fl, "B", script, [b"", junk_b, sg], t1, 0, 0, "junkbatch/witness/%s" % junk_b.hex())
+
+
 def derived_eval_cases(sp: SpendCase):
     """the last script of a spend as a single-script case (initial stack = what the pipeline would pass)"""
     tx, nin = sp.tx, sp.nin
@@ -1915,6 +2049,11 @@ def prop_cases(rng, tier):
         yield PropCase("spend", c.to_json(), (lambda c=c: chk_spend(c)))
         for e in derived_eval_cases(c):
             yield PropCase("eval", e.to_json(), (lambda e=e: chk_eval(e)))
+    for c in junk_sig_batches(rng, tier):
+        if isinstance(c, EvalCase):
+            yield PropCase("eval", c.to_json(), (lambda c=c: chk_eval(c)))
+        else:
+            yield PropCase("spend", c.to_json(), (lambda c=c: chk_spend(c)))
     for var, c in lax_cases(rng, tier):
         yield PropCase("lax", dict(c.to_json(), variant=var), (lambda var=var, c=c: chk_lax(var, c)))
 
